@@ -10,6 +10,7 @@ every body that satisfies `BodyWF`.
 import SwimVerif.Proofs.Envelope
 import SwimVerif.Proofs.Routing
 import SwimVerif.Proofs.MultiReader
+import SwimVerif.Proofs.MultiReaderReady
 
 set_option linter.unusedSimpArgs false
 namespace SwimVerif.C11
@@ -397,6 +398,84 @@ theorem C11_delivered_prefix_of_pushed (ops : List MultiReader.Op) (s : Nat) :
 
 example : (mreach [.add, .add, .push 0 1, .push 1 2, .push 0 3, .poll, .poll, .poll]).delivered =
     [(0, 1), (1, 2), (0, 3)] := by decide
+
+/-- **`no_lost_ready`**: a registered stream that has something to deliver (an item, or its end) always has its
+ready bit set — in the flags of its bucket, or, if its bucket is the current one, in the local or the queue flags —
+so the next polls reach it. -/
+theorem C11_no_lost_ready (ops : List MultiReader.Op) (k s : Nat)
+    (hk : (mreach ops).entries[k]? = some (Entry.occ s))
+    (hready : ((mreach ops).sources.getD s {}).q ≠ [] ∨ ((mreach ops).sources.getD s {}).closed = true) :
+    flagged (mreach ops) (k / bucketSize) (k % bucketSize) := by
+  have h := (run_inv MultiReader.init ops inv_init.1 inv_init.2).2 k s (by simp) hk
+  rcases h with h | h
+  · exact h
+  · unfold parked at h
+    rcases hready with hq | hc
+    · exact absurd h.2.1 hq
+    · have h2 : ((mreach ops).sources.getD s {}).closed = false := h.2.2
+      rw [h2] at hc; cases hc
+
+/-- Conversely a registered stream without a ready bit is empty, open, and holds the waker that sets its bit. -/
+theorem C11_unflagged_is_parked (ops : List MultiReader.Op) (k s : Nat)
+    (hk : (mreach ops).entries[k]? = some (Entry.occ s))
+    (hn : ¬ flagged (mreach ops) (k / bucketSize) (k % bucketSize)) :
+    parked (mreach ops) k s := by
+  rcases (run_inv MultiReader.init ops inv_init.1 inv_init.2).2 k s (by simp) hk with h | h
+  · exact absurd h hn
+  · exact h
+
+/-- Pushing into a parked stream wakes the reading task and sets the stream's ready bit. -/
+theorem C11_push_wakes_parked (ops : List MultiReader.Op) (k s x : Nat)
+    (hk : (mreach ops).entries[k]? = some (Entry.occ s)) (hp : parked (mreach ops) k s) :
+    (MultiReader.step (mreach ops) (.push s x)).2.2 = 1 ∧
+    flagged (MultiReader.step (mreach ops) (.push s x)).1 (k / bucketSize) (k % bucketSize) := by
+  have hinv : WF (mreach ops) ∧ Ready (mreach ops) none := run_inv MultiReader.init ops inv_init.1 inv_init.2
+  generalize mreach ops = st at *
+  have hs : s < st.sources.length := hinv.1.src_lt k s hk
+  have hnc : (st.sources.getD s {}).closed = false := hp.2.2
+  have hwk : ((setSource st s (fun src => { src with q := src.q ++ [x] })).sources.getD s {}).waker =
+      some (k / bucketSize, k % bucketSize) := by
+    rw [waker_setSource st s s (fun src => { src with q := src.q ++ [x] }) (fun _ => rfl)]; exact hp.1
+  have hblt : k / bucketSize < st.buckets.length := by
+    have hklt : k < st.entries.length := by
+      rcases Nat.lt_or_ge k st.entries.length with h' | h'
+      · exact h'
+      · rw [List.getElem?_eq_none_iff.mpr h'] at hk; cases hk
+    have hcov := hinv.1.cover
+    rw [hB] at hcov ⊢
+    omega
+  simp only [MultiReader.step, hs, if_true, hnc, Bool.false_eq_true, if_false]
+  have hwk' : (({ setSource st s (fun src => { src with q := src.q ++ [x] }) with
+      pushed := st.pushed ++ [(s, x)] } : MultiReader.St).sources.getD s {}).waker =
+      some (k / bucketSize, k % bucketSize) := hwk
+  unfold fire
+  rw [hwk']
+  refine ⟨rfl, ?_⟩
+  unfold flagged
+  left
+  simp only
+  rw [getD_modify_list, if_pos ⟨rfl, by simpa [setSource] using hblt⟩]
+  exact (mem_fInsert _ _ _).mpr (Or.inl rfl)
+
+/-- (open) When `poll_next` answers `Pending`, no ready bit is left anywhere, hence every registered stream is
+parked: needs the termination argument of the bucket walk of `get_next_stream` (it returns `None` only after a
+full cycle). Sampled by the monitor (`pending-though-item-available`, `lost-wakeup-on-push`). -/
+def C11_pending_means_all_parked_open : Prop :=
+  ∀ (ops : List MultiReader.Op), (MultiReader.poll (mreach ops)).2 = .pending →
+    ∀ k s, (MultiReader.poll (mreach ops)).1.entries[k]? = some (Entry.occ s) →
+      parked (MultiReader.poll (mreach ops)).1 k s
+
+/-- (open) Fairness: a stream whose bit is set is polled within two rounds over the ready streams. -/
+def C11_fair_within_2n_polls_open : Prop :=
+  ∀ (ops : List MultiReader.Op) (k s : Nat), (mreach ops).entries[k]? = some (Entry.occ s) →
+    ((mreach ops).sources.getD s {}).q ≠ [] →
+    ∃ n, n ≤ 2 * (mreach ops).entries.length + 1 ∧
+      ∃ x, (s, x) ∈ (MultiReader.run (mreach ops) (List.replicate n .poll)).delivered ∧
+           (s, x) ∉ (mreach ops).delivered
+
+example : parked (mreach [.add, .poll]) 0 0 := by unfold parked; decide
+example : flagged (mreach [.add, .poll, .push 0 7]) 0 0 := by unfold flagged; decide
+example : (MultiReader.step (mreach [.add, .poll]) (.push 0 7)).2.2 = 1 := by decide
 
 end Multiplexer
 
